@@ -16,6 +16,8 @@ def upperBoundLeft (capacity weightSum eff : Rat) : Rat := ((capacity - weightSu
 
 def prunes (profitSum upper lower : Rat) : Bool := (decide ((profitSum + upper) ≤ lower))
 
+def prunesLeft (profitSum upper lower : Rat) : Bool := (decide ((profitSum + upper) ≤ lower))
+
 def zeroCost (cost : Rat) : Bool := (decide (cost = (0 : Rat)))
 
 def zeroCostTaken (profit : Rat) : Bool := (decide (profit > (0 : Rat)))
